@@ -5,8 +5,11 @@ package mcp
 
 import (
 	"context"
+	"encoding/json"
 	"fmt"
 	"io"
+	"net/http"
+	"net/http/httptest"
 	"strings"
 	"testing"
 
@@ -424,6 +427,99 @@ func c03RawBatch() vs.Verdict {
 	return f.verdict(seq + ": " + strings.Join(evs, ","))
 }
 
+// c03HTTP: client-to-server order over the streamable HTTP server.  One client thread POSTs a
+// progress notification (its handler is slow) and, once that POST has been answered, a tool call.
+// The notification must be handled at all, and the call's handler must not start before the
+// notification's handler has finished.  kind: stateful (one session), stateless-legacy and
+// stateless-modern (every POST is served by its own short-lived session).
+func c03HTTP(kind string) vs.Verdict {
+	f := &e1Fail{prefix: "c03 http " + kind}
+	ctl := vs.NewController()
+	gate := ctl.Gate("notification-handler")
+	vs.Quiet(true)
+	s := NewServer(&Implementation{Name: "srv", Version: "1"}, &ServerOptions{Logger: quietLogger,
+		ProgressNotificationHandler: func(ctx context.Context, r *ProgressNotificationServerRequest) {
+			vs.Event("start N")
+			gate.Wait()
+			vs.Event("finish N")
+		}})
+	AddTool(s, &Tool{Name: "t"}, func(ctx context.Context, r *CallToolRequest, in c03Args) (*CallToolResult, any, error) {
+		vs.Event("start T")
+		return &CallToolResult{}, nil, nil
+	})
+	stateless := kind != "stateful"
+	version := "2025-11-25"
+	meta := ""
+	if kind == "stateless-modern" {
+		version = "2026-07-28"
+		meta = `,"_meta":{"io.modelcontextprotocol/protocolVersion":"2026-07-28","io.modelcontextprotocol/clientInfo":{"name":"c","version":"1"},"io.modelcontextprotocol/clientCapabilities":{}}`
+	}
+	h := NewStreamableHTTPHandler(func(*http.Request) *Server { return s }, &StreamableHTTPOptions{Stateless: stateless, Logger: quietLogger})
+	sid := ""
+	post := func(body string) *httptest.ResponseRecorder {
+		r := httptest.NewRequest("POST", "http://example.test/mcp", strings.NewReader(body))
+		r.Header.Set("Content-Type", "application/json")
+		r.Header.Set("Accept", "application/json, text/event-stream")
+		if sid != "" {
+			r.Header.Set("Mcp-Session-Id", sid)
+		}
+		if sid != "" || stateless {
+			r.Header.Set("Mcp-Protocol-Version", version)
+		}
+		if kind == "stateless-modern" {
+			var m struct {
+				Method string `json:"method"`
+				Params struct {
+					Name string `json:"name"`
+				} `json:"params"`
+			}
+			json.Unmarshal([]byte(body), &m)
+			r.Header.Set("Mcp-Method", m.Method)
+			if m.Params.Name != "" {
+				r.Header.Set("Mcp-Name", m.Params.Name)
+			}
+		}
+		w := httptest.NewRecorder()
+		h.ServeHTTP(w, r)
+		return w
+	}
+	if !stateless {
+		w := post(`{"jsonrpc":"2.0","id":"i","method":"initialize","params":{"protocolVersion":"` + version + `","capabilities":{},"clientInfo":{"name":"c","version":"1"}}}`)
+		sid = w.Header().Get("Mcp-Session-Id")
+		post(`{"jsonrpc":"2.0","method":"notifications/initialized","params":{}}`)
+	}
+	vs.Quiet(false)
+	done := make(chan string, 1)
+	vs.Go(func() {
+		w := post(`{"jsonrpc":"2.0","method":"notifications/progress","params":{"progressToken":1,"progress":1` + meta + `}}`)
+		vs.Event("notification POST answered %d", w.Code)
+		w = post(`{"jsonrpc":"2.0","id":5,"method":"tools/call","params":{"name":"t","arguments":{"k":0}` + meta + `}}`)
+		done <- fmt.Sprintf("call POST answered %d", w.Code)
+	})
+	res := <-done
+	vs.Event("%s", res)
+	vs.WaitIdle()
+	ctl.Stop()
+	vs.Quiet(true)
+	for ss := range s.Sessions() {
+		ss.Close()
+	}
+	vs.WaitIdle()
+	vs.Quiet(false)
+	evs := vs.Events()
+	if i := evIndex(evs, "notification POST answered 202"); i < 0 {
+		return f.verdict("notification refused: " + evJoin(evs)) // nothing is owed for a notification the server refused
+	}
+	sN, fN, sT := evIndex(evs, "start N"), evIndex(evs, "finish N"), evIndex(evs, "start T")
+	switch {
+	case sN < 0:
+		f.failf("accepted-notification-never-handled", "the server accepted the notification (202) but never dispatched it to its handler: %s", evJoin(evs))
+	case sT >= 0 && (fN < 0 || sT < fN):
+		f.failf("later-call-overtakes-notification", "the tool call sent after the notification was handled before the notification's handler finished: %s", evJoin(evs))
+	}
+	return f.verdict(strings.Join(evs, ","))
+}
+
 func TestVerifC03(t *testing.T) {
 	env := verifx.LoadEnv("C03")
 	b := env.Pick(1, 2)
@@ -431,6 +527,9 @@ func TestVerifC03(t *testing.T) {
 		vs.E1(t, "inmem/c2s/2025-06-18", b, vs.Options{}, func() vs.Verdict { return c03Run("c2s", "2025-06-18", 3) }),
 		vs.E1(t, "inmem/s2c/2025-06-18", b, vs.Options{}, func() vs.Verdict { return c03Run("s2c", "2025-06-18", 3) }),
 		vs.E1(t, "inmem/concurrent-calls", b, vs.Options{}, func() vs.Verdict { return c03Concurrent("2025-06-18") }),
+		vs.E1(t, "http/stateful", b, vs.Options{}, func() vs.Verdict { return c03HTTP("stateful") }),
+		vs.E1(t, "http/stateless-legacy", b, vs.Options{}, func() vs.Verdict { return c03HTTP("stateless-legacy") }),
+		vs.E1(t, "http/stateless-modern", b, vs.Options{}, func() vs.Verdict { return c03HTTP("stateless-modern") }),
 		vs.E1(t, "raw/batch-of-three/2025-03-26", b, vs.Options{}, func() vs.Verdict { return c03RawBatch() }),
 		vs.E1(t, "raw/initialize-context-ends/2025-06-18", env.Pick(2, 3), vs.Options{}, func() vs.Verdict { return c03RawInit("2025-06-18") }),
 	}
